@@ -184,6 +184,7 @@ var qProps = map[string]qPropDef{
 	"TestProp_C05_SubGranularity": {"C05", profileC05Sub, true},
 	"TestProp_C12_Store":          {"C12", profileC12, false},
 	"TestProp_C14_Store":          {"C14", profileC14, false},
+	"TestProp_C14_BigLists":       {"C14", profileC14, false},
 }
 
 func qProp(t *testing.T, test string) {
